@@ -52,6 +52,9 @@ checks = {
  "C19": (MC, "apienum", "exhaustive product of per-parameter domains for every API method in 9 reachable wallet states, under recover, plus malformed relays",
    "For each of 9 reachable wallet states and each of the 28 request-taking API methods the full product of small per-field domains (derived from the request type by reflection, largest domains trimmed only above the cap) is executed on the real APIServer over the real wallet under recover() with FATAL trapping, followed by a follower liveness probe; 12 malformed relayed transactions per state go to the follower entry point.",
    "§5 C19"),
+ "C17": (MC, "schedexplore", "exhaustive placement enumeration of follower commits among a query's database reads on the instrumented real code (controlled scheduler + db seam gates) with a sequential-twin oracle; auxiliary free-running -race pass",
+   "For 24 scenarios (4 queries x 6 writers; 17 more in the thorough tier) every placement of the follower's 1-4 block commits (connects, pay+spend, reorgs) among the database reads of WalletBalance, AddressBalance, GetUtxo and AutoCreateRawTransaction is executed on the real code; the answer must equal the answer of the same call run alone at a block boundary inside its window. The data-race clause is covered only by a sampling race-detector pass (auxiliary, not exhaustive).",
+   "§5 C17"),
  "C20": (MC, "schedexplore", "stateless DFS with iterative preemption bounding over a cooperative controlled scheduler on the instrumented real follower/worker/stop code",
    "The real NtfnsHandler (handle, worker, suspend/resume, task queue, Stop) is rebuilt with every sync primitive, goroutine start and channel operation routed through a controlled scheduler (source overlay generated from the current tree). For 11 scenarios (import or removal started by an API thread or resumed from a restart, 0-2 tips announced by a node thread, with and without a concurrent stop request) every schedule with at most the stated number of preemptions runs to completion on a fresh real wallet; each execution is checked for deadlock, abnormal thread end, livelock, stop returning with the database closed exactly once, and (without stop) for every announced tip processed, the accepted task finished and the ledger equal to the reference.",
    "§5 C20"),
